@@ -714,6 +714,13 @@ def _expectations(sgame, src):
     return charts, want, want_meta, relabelled
 
 
+def _from_source(text):
+    """what a non-ASCII text of a BMS source may become in a target: itself, or its ASCII transliteration"""
+    from unidecode import unidecode
+
+    return (text, unidecode(text))
+
+
 def _check_result(sgame, tgame, res, n_charts, want, want_meta, sfx, shift, content_only=False):
     """The statement's clauses about one returned value: [(what, detail)] (not de-duplicated)."""
     gs, gt = _game(sgame), _game(tgame)
@@ -775,12 +782,16 @@ def _check_result(sgame, tgame, res, n_charts, want, want_meta, sfx, shift, cont
         for f in ("title", "artist", "creator"):
             if wm[f] is None or gt[f] is None:
                 continue
-            if isinstance(wm[f], str) and sgame == "bms" and not wm[f].isascii():
-                continue  # BMS stores shift_jis bytes; what a non-ASCII title becomes elsewhere is not stated
             try:
                 got = gt[f](holder, tc)
             except Exception as ex:  # noqa
                 got = f"<{type(ex).__name__}: {ex}>"
+            if isinstance(wm[f], str) and sgame == "bms" and not wm[f].isascii():
+                # BMS stores shift_jis bytes.  "Comes from the source" is read as: the decoded text itself or its ASCII transliteration
+                # (every shipped BMS converter romanises with unidecode); characters silently dropped / stray bytes are neither
+                if got not in _from_source(wm[f]):
+                    failed.append(("metadata_" + f, f"chart {i}: target {f} {got!r} is neither the source's text {wm[f]!r} nor its transliteration {_from_source(wm[f])[1]!r}"))
+                continue
             if got != wm[f]:
                 failed.append(("metadata_" + f, f"chart {i}: target {f} {got!r}, source {wm[f]!r}"))
         if gt["diff"] is not None:
@@ -789,7 +800,10 @@ def _check_result(sgame, tgame, res, n_charts, want, want_meta, sfx, shift, cont
             except Exception as ex:  # noqa
                 got = f"<{type(ex).__name__}: {ex}>"
             if wm["diff"] is not None:
-                if not (isinstance(wm["diff"], str) and sgame == "bms" and not wm["diff"].isascii()) and got != wm["diff"]:
+                if isinstance(wm["diff"], str) and sgame == "bms" and not wm["diff"].isascii():
+                    if got not in _from_source(wm["diff"]):
+                        failed.append(("metadata_difficulty_name", f"chart {i}: target difficulty name {got!r} is neither the source's text {wm['diff']!r} nor its transliteration {_from_source(wm['diff'])[1]!r}"))
+                elif got != wm["diff"]:
                     failed.append(("metadata_difficulty_name", f"chart {i}: target difficulty name {got!r}, source {wm['diff']!r}"))
             elif wm["diff_contains"] is not None:
                 if not isinstance(got, str) or wm["diff_contains"] not in got:
@@ -956,11 +970,14 @@ def _new_memory_bases(game, rng):
     one-element lists, ties and boundary values, int-typed columns, 7 keys, every StepMania chart type, sets of 0 / 1 / 5 charts
     with an empty chart in the middle, metadata with separators, double-byte punctuation, empty strings."""
     mk = lambda **kw: dict(kind="memory", **kw)  # noqa
-    wide = "wide" if game != "bms" else "punct"  # what non-ASCII BMS text becomes elsewhere is not stated
+    wide = "wide" if game != "bms" else "punct"  # BMS: the non-ASCII sets are added below, at the end of the family
     if not _game(game)["multi"]:
         out = [mk(variant=v, meta="ascii") for v in NEW_VARIANTS]
         out += [mk(variant="full", meta="ascii", keys=7), mk(variant="unsorted", meta="punct", keys=7), mk(variant="ties", meta=wide, keys=7)]
         out += [mk(variant="sparse", meta="blank"), mk(variant="full", meta="punct"), mk(variant="hits_only", meta=wide)]
+        if game == "bms":
+            # (25) non-ASCII shift_jis metadata of a BMS source: the target holds the text or its transliteration (_from_source)
+            out += [mk(variant="full", meta="wide"), mk(variant="sparse", meta="kana", keys=7)]
         # charts whose first lane(s) are empty: every converter, and a negative explicit shift where the converter has one
         out += [mk(variant="full", meta="ascii", lift=1), mk(variant="unsorted", meta="ascii", keys=7, lift=2), mk(variant="ties", meta="ascii", keys=7, lift=1)]
         out[:0] = [mk(variant="full", meta="ascii", fill=True), mk(variant="kinds_a", meta="ascii", keys=7, fill=True)]  # (14), first: a truncated quick run reaches them
@@ -1007,7 +1024,7 @@ def _from_game(game):
         paths = sorted(glob.glob(os.path.join(MAPS, _game(game)["glob"])))
         if rep.tier == "quick":
             paths = [p for p in paths if os.path.relpath(p, MAPS) in QUICK_FIXTURES[game]]
-        bases = [dict(kind="memory", variant=v, meta=m) for v, m in (("full", "ascii"), ("unsorted", "kana" if game != "bms" else "ascii"), ("sparse", "ascii"))]
+        bases = [dict(kind="memory", variant=v, meta=m) for v, m in (("full", "ascii"), ("unsorted", "kana"), ("sparse", "ascii"))]
         new_bases = _new_memory_bases(game, rng)
         unreadable = []
         for p in paths:
